@@ -225,8 +225,14 @@ func (f *c15File) text(perm func(n int) []int) string {
 var c15BenchNames = []string{"Encode", "Decode", "Sort/size=1", "Sort/size=10", "Sort/size=100", "Sort/size=1Ki", "Sort/size=1010", "Sort/size=8Ki", "Sort/size=8100", "Sort/size=1k", "Hash/size=1/align=0", "Hash/size=1/align=1", "Hash/size=10/align=0", "Walk", "Fib-8", "Fib-16", "Sort/size=1-8", "Sort/size=20.1.1", "Sort/size=3", "Sort/size=20", "Sort/size=v2", "Pair/a=1k/b=1000", "Pair/a=1000/b=1k", "Pair/a=1k/b=1k", "Pair/a=1e3/b=1000", "Pair/a=2/b=1Ki", "Pair/a=2/b=1024"}
 var c15Units = []string{"ns/op", "B/op", "allocs/op", "MB/s", "widgets", "ns/frob", "ns/MB", "sec/MB", "MB/ns", "B/ns", "sec/op", "B/s"}
 
+// c15NaNRun: the generated input holds NaN measurements. Only single-column runs get them: comparing two samples
+// that contain NaN never returns (the U-test of the external go-moremath package spins on NaN ranks; recorded in
+// DESIGN.md, outside the claimed properties), which would hang the worker instead of telling anything about C15.
+var c15NaNRun bool
+
 func c15GenFiles(T *sim.Tape) []*c15File {
 	nf := 1 + T.Intn(3, "nfiles")
+	c15NaNRun = nf == 1 && T.Intn(3, "nan-run") == 0
 	nb := 1 + T.Intn(6, "nbench")
 	names := make([]string, nb)
 	for i := range names {
@@ -282,6 +288,10 @@ func c15GenFiles(T *sim.Tape) []*c15File {
 							v = float64(int(base)%7 + T.Intn(2, "exactvar")*T.Intn(2, "exactvar2"))
 						}
 						switch T.Intn(60, "odd") {
+						case 2:
+							if c15NaNRun {
+								v = math.NaN() // a failed measurement; where it stands among the lines must not matter
+							}
 						case 0:
 							v = 0
 						case 1:
@@ -313,8 +323,12 @@ var c15Conf = []string{"0.95", "0.99", "0.999", "0.9", "0.5", "0.995", "0.991"}
 
 func c15GenArgs(T *sim.Tape, format string, conf string, inputs []string) []string {
 	var a []string
-	for _, g := range c15Flags {
-		a = append(a, sim.Pick(T, g, "flag")...)
+	for gi, g := range c15Flags {
+		f := sim.Pick(T, g, "flag")
+		if gi == 0 && c15NaNRun {
+			f = nil // no -col: one input file, one column, no comparison
+		}
+		a = append(a, f...)
 	}
 	a = append(a, "-confidence", conf, "-format", format)
 	return append(a, inputs...)
@@ -470,7 +484,7 @@ func c15Episode(t *testing.T, r *sim.Run, tier string) {
 				inputs = append(inputs, f.name)
 			}
 		}
-		if T.Intn(5, "dup") == 0 {
+		if T.Intn(5, "dup") == 0 && !c15NaNRun {
 			inputs = append(inputs, files[0].name) // duplicate path
 		}
 		contentKey = fmt.Sprintf("%x", sim.HashStr(all.String()))
@@ -478,11 +492,16 @@ func c15Episode(t *testing.T, r *sim.Run, tier string) {
 		for _, g := range c15Flags {
 			shared = append(shared, sim.Pick(T, g, "flag"))
 		}
+		if c15NaNRun {
+			shared[0] = nil // one column only (see c15NaNRun)
+		}
 		for i := 0; i < nsets; i++ {
 			var a []string
 			for gi, g := range c15Flags {
 				if T.Intn(4, "varyflag") == 0 {
-					a = append(a, sim.Pick(T, g, "flag")...)
+					if f := sim.Pick(T, g, "flag"); !(gi == 0 && c15NaNRun) {
+						a = append(a, f...)
+					}
 				} else {
 					a = append(a, shared[gi]...)
 				}
